@@ -196,6 +196,8 @@ struct CaseOut {
     raw_events: u64,
     raw_destroys: u64,
     restarts: u64,
+    uncorr_worlds: u64,
+    bounded: u64,
     lifetimes: BTreeMap<String, u64>,
     finds: BTreeMap<String, u64>,
     waits: BTreeMap<String, u64>,
@@ -433,7 +435,7 @@ struct Lt {
     lt: Lifetime,
     id: ObjectId,
     class: &'static str,
-    new: BusListener,
+    new: Option<BusListener>,
     cur: Vec<BusEvent>,
     news: Vec<BusEvent>,
     bound_at: u64,
@@ -443,7 +445,7 @@ struct Lt {
 struct Wt {
     fut: Pin<Box<dyn Future<Output = Result<(ObjectId, Vec<ServiceId>), Error>>>>,
     spec: Spec,
-    new: BusListener,
+    new: Option<BusListener>,
     cur: Vec<BusEvent>,
     news: Vec<BusEvent>,
     start: u64,
@@ -546,22 +548,29 @@ async fn observer(h: Handle, r: R, b: B, nactors: usize, out: O) {
         }
         o.line("new".into(), "-".into());
     }
-    // ---- build the discoverer and its shadows in one frozen window
-    b.borrow_mut().freeze = true;
+    // ---- build the discoverer; in three worlds of four with its shadows in one frozen window
+    // (correspondence), in the fourth with the actors running (monitors only)
+    let dcorr = rnd(&r, 4) != 0;
+    if dcorr {
+        b.borrow_mut().freeze = true;
+    }
     let mut builder = Discoverer::<usize>::builder(&h);
     for (k, s) in specs.iter().enumerate() {
         builder = builder.add(k, s.obj_uuid(), s.svc_uuids());
     }
     let mut d = builder.build().await.unwrap();
-    let mut s_new = shadow(&h, &filters, BusListenerScope::New).await;
-    let cur = snapshot(&h, &filters).await;
-    b.borrow_mut().freeze = false;
-    {
+    let mut s_new: Option<BusListener> = None;
+    if dcorr {
+        s_new = Some(shadow(&h, &filters, BusListenerScope::New).await);
+        let cur = snapshot(&h, &filters).await;
+        b.borrow_mut().freeze = false;
         let mut o = out.borrow_mut();
         o.raw_events += cur.len() as u64;
         let t = format!("cur {}", o.ids.buses(&cur));
         o.mix(&t);
         o.line(t, "-".into());
+    } else {
+        out.borrow_mut().uncorr_worlds += 1;
     }
     let mut devs: Vec<(usize, bool, ObjectId)> = vec![]; // since the last restart
     let mut restarted = rnd(&r, 3) == 0; // a third of the worlds never restart
@@ -576,7 +585,9 @@ async fn observer(h: Handle, r: R, b: B, nactors: usize, out: O) {
     macro_rules! flush_new {
         () => {{
             let mut v = vec![];
-            drain(&mut s_new, &mut v);
+            if let Some(sn) = s_new.as_mut() {
+                drain(sn, &mut v);
+            }
             let mut o = out.borrow_mut();
             for ev in v {
                 o.raw_events += 1;
@@ -630,25 +641,29 @@ async fn observer(h: Handle, r: R, b: B, nactors: usize, out: O) {
         // ---- restart once, at a random moment
         if !restarted && !synced && rnd(&r, 150) == 0 {
             restarted = true;
-            b.borrow_mut().freeze = true;
-            d.restart().await.unwrap();
-            // everything the broker emitted before it processed Stop is queued by now
-            flush_new!();
-            out.borrow_mut().line("deliv".into(), "ok".into());
-            for k in 0..nent {
-                let t = devs_text!(k);
-                out.borrow_mut().line(format!("prefix {k} {t}"), "ok".into());
+            if dcorr {
+                b.borrow_mut().freeze = true;
             }
-            let cur = snapshot(&h, &filters).await;
-            b.borrow_mut().freeze = false;
+            d.restart().await.unwrap();
+            out.borrow_mut().restarts += 1;
+            if dcorr {
+                // everything the broker emitted before it processed Stop is queued by now
+                flush_new!();
+                out.borrow_mut().line("deliv".into(), "ok".into());
+                for k in 0..nent {
+                    let t = devs_text!(k);
+                    out.borrow_mut().line(format!("prefix {k} {t}"), "ok".into());
+                }
+                let cur = snapshot(&h, &filters).await;
+                b.borrow_mut().freeze = false;
+                let mut o = out.borrow_mut();
+                o.raw_events += cur.len() as u64;
+                o.line("restart".into(), "-".into());
+                let t = format!("cur {}", o.ids.buses(&cur));
+                o.mix(&t);
+                o.line(t, "-".into());
+            }
             devs.clear();
-            let mut o = out.borrow_mut();
-            o.restarts += 1;
-            o.raw_events += cur.len() as u64;
-            o.line("restart".into(), "-".into());
-            let t = format!("cur {}", o.ids.buses(&cur));
-            o.mix(&t);
-            o.line(t, "-".into());
         }
         // ---- bind a lifetime
         if !synced && lts.len() < 3 && rnd(&r, 60) == 0 {
@@ -667,12 +682,18 @@ async fn observer(h: Handle, r: R, b: B, nactors: usize, out: O) {
             };
             let (id, class) = pick;
             let f = [BusListenerFilter::object(id.uuid)];
-            b.borrow_mut().freeze = true;
-            let lt = h.create_lifetime(LifetimeId(id)).await.unwrap();
-            let new = shadow(&h, &f, BusListenerScope::New).await;
-            let cur = snapshot(&h, &f).await;
-            b.borrow_mut().freeze = false;
-            lts.push(Lt { lt, id, class, new, cur, news: vec![], bound_at: now(&b), ended_at: None });
+            if rnd(&r, 3) != 0 {
+                b.borrow_mut().freeze = true;
+                let lt = h.create_lifetime(LifetimeId(id)).await.unwrap();
+                let new = shadow(&h, &f, BusListenerScope::New).await;
+                let cur = snapshot(&h, &f).await;
+                b.borrow_mut().freeze = false;
+                lts.push(Lt { lt, id, class, new: Some(new), cur, news: vec![], bound_at: now(&b), ended_at: None });
+            } else {
+                // bound while the actors run: monitors only
+                let lt = h.create_lifetime(LifetimeId(id)).await.unwrap();
+                lts.push(Lt { lt, id, class, new: None, cur: vec![], news: vec![], bound_at: now(&b), ended_at: None });
+            }
         }
         // ---- poll the lifetimes
         for l in lts.iter_mut() {
@@ -741,7 +762,10 @@ async fn observer(h: Handle, r: R, b: B, nactors: usize, out: O) {
             waits_started += 1;
             let spec = Spec::random(&r);
             let f = spec.filters();
-            b.borrow_mut().freeze = true;
+            let frozen = rnd(&r, 3) != 0;
+            if frozen {
+                b.borrow_mut().freeze = true;
+            }
             let h2 = h.clone();
             let (o2, s2) = (spec.obj_uuid(), spec.svc_uuids());
             let mut fut: Pin<Box<dyn Future<Output = Result<(ObjectId, Vec<ServiceId>), Error>>>> =
@@ -751,24 +775,28 @@ async fn observer(h: Handle, r: R, b: B, nactors: usize, out: O) {
             // trips (create listener, start); requests of one client are served in order, so
             // after each sync_broker the reply the call waits for has arrived
             let mut result = None;
-            for _ in 0..3 {
-                if let Poll::Ready(x) = poll_once(&mut fut) {
-                    let (oid, sids) = x.unwrap();
-                    result = Some((oid, sids, now(&b)));
-                    break;
+            if frozen {
+                for _ in 0..3 {
+                    if let Poll::Ready(x) = poll_once(&mut fut) {
+                        let (oid, sids) = x.unwrap();
+                        result = Some((oid, sids, now(&b)));
+                        break;
+                    }
+                    h.sync_broker().await.unwrap();
                 }
-                h.sync_broker().await.unwrap();
-            }
-            if result.is_none() {
-                if let Poll::Ready(x) = poll_once(&mut fut) {
-                    let (oid, sids) = x.unwrap();
-                    result = Some((oid, sids, now(&b)));
+                if result.is_none() {
+                    if let Poll::Ready(x) = poll_once(&mut fut) {
+                        let (oid, sids) = x.unwrap();
+                        result = Some((oid, sids, now(&b)));
+                    }
                 }
+                let new = shadow(&h, &f, BusListenerScope::New).await;
+                let cur = snapshot(&h, &f).await;
+                b.borrow_mut().freeze = false;
+                wt = Some(Wt { fut, spec, new: Some(new), cur, news: vec![], start, result });
+            } else {
+                wt = Some(Wt { fut, spec, new: None, cur: vec![], news: vec![], start, result });
             }
-            let new = shadow(&h, &f, BusListenerScope::New).await;
-            let cur = snapshot(&h, &f).await;
-            b.borrow_mut().freeze = false;
-            wt = Some(Wt { fut, spec, new, cur, news: vec![], start, result });
         }
         let mut wt_done = false;
         if let Some(w) = wt.as_mut() {
@@ -802,7 +830,9 @@ async fn observer(h: Handle, r: R, b: B, nactors: usize, out: O) {
             })
             .collect()
     };
-    out.borrow_mut().line("deliv".into(), "ok".into());
+    if dcorr {
+        out.borrow_mut().line("deliv".into(), "ok".into());
+    }
     for (k, spec) in specs.iter().enumerate() {
         // monitor: the view against the actors' truth
         let mut expect: BTreeSet<ObjectId> = BTreeSet::new();
@@ -858,6 +888,9 @@ async fn observer(h: Handle, r: R, b: B, nactors: usize, out: O) {
             out.borrow_mut().fail("event-fold-differs-from-view", format!("entry {k}: event fold {lv:?} != view {got:?}"));
         }
         // correspondence lines
+        if !dcorr {
+            continue;
+        }
         let t = devs_text!(k);
         let mut o = out.borrow_mut();
         o.line(format!("events {k} {t}"), "ok".into());
@@ -877,7 +910,9 @@ async fn observer(h: Handle, r: R, b: B, nactors: usize, out: O) {
     }
     // ---- lifetimes: final poll, iff with the truth, model on the shadow's events
     for mut l in lts {
-        drain(&mut l.new, &mut l.news);
+        if let Some(n) = l.new.as_mut() {
+            drain(n, &mut l.news);
+        }
         if l.ended_at.is_none() {
             let w = waker();
             let mut cx = Context::from_waker(&w);
@@ -895,19 +930,27 @@ async fn observer(h: Handle, r: R, b: B, nactors: usize, out: O) {
                 format!("{:?} ({}): has_ended = {ended}, scope alive on the bus = {alive}", l.id, l.class),
             );
         }
-        let (u, c) = (o.ids.n(l.id.uuid.0), o.ids.n(l.id.cookie.0));
-        let t = format!("lt {u} {c} | {} | {}", o.ids.buses(&l.cur), o.ids.buses(&l.news));
-        o.line(t, format!("ended={}", ended as u8));
+        if l.new.is_some() {
+            let (u, c) = (o.ids.n(l.id.uuid.0), o.ids.n(l.id.cookie.0));
+            let t = format!("lt {u} {c} | {} | {}", o.ids.buses(&l.cur), o.ids.buses(&l.news));
+            o.line(t, format!("ended={}", ended as u8));
+        } else {
+            *o.lifetimes.entry("bound-unfrozen".into()).or_default() += 1;
+        }
     }
     // ---- a wait still pending: it must not have missed a match
     if let Some(mut w) = wt.take() {
         if w.result.is_none() {
-            for _ in 0..3 {
+            // the call may still be building its discoverer (two round trips): after each
+            // sync_broker the reply it waits for has arrived, and once its listener is started the
+            // snapshot is queued before the sync reply
+            for _ in 0..4 {
                 if let Poll::Ready(x) = poll_once(&mut w.fut) {
                     let (oid, sids) = x.unwrap();
                     w.result = Some((oid, sids, now(&b)));
                     break;
                 }
+                h.sync_broker().await.unwrap();
             }
         }
         finish_wait(w, &b, &out, true);
@@ -918,7 +961,9 @@ async fn observer(h: Handle, r: R, b: B, nactors: usize, out: O) {
 }
 
 fn finish_wait(mut w: Wt, b: &B, out: &O, at_end: bool) {
-    drain(&mut w.new, &mut w.news);
+    if let Some(n) = w.new.as_mut() {
+        drain(n, &mut w.news);
+    }
     let mut o = out.borrow_mut();
     let bd = b.borrow();
     match &w.result {
@@ -942,12 +987,32 @@ fn finish_wait(mut w: Wt, b: &B, out: &O, at_end: bool) {
         Some((oid, sids, _)) => o.ids.found(*oid, sids),
         None => "none".into(),
     };
-    let t = format!("wait {} | {} | {} | {rt}", w.spec.text(), o.ids.buses(&w.cur), o.ids.buses(&w.news));
-    o.line(t, "ok".into());
+    if w.new.is_some() {
+        let t = format!("wait {} | {} | {} | {rt}", w.spec.text(), o.ids.buses(&w.cur), o.ids.buses(&w.news));
+        o.line(t, "ok".into());
+    } else {
+        *o.waits.entry("started-unfrozen".into()).or_default() += 1;
+    }
 }
 
 // ---------------------------------------------------------------- one world
 fn run_case(seed: u64, nactors: usize, steps: u64, out: O) -> Result<(), String> {
+    // the transport between each client and the broker: unbounded, or bounded with a FIFO of 1..8
+    // messages (back pressure changes which task can run when); decided by the world's seed
+    match seed % 3 {
+        0 => {
+            let n = 1 + (seed / 3 % 8) as usize;
+            out.borrow_mut().bounded += 1;
+            run_case_t(seed, nactors, steps, out, move || channel::bounded(n))
+        }
+        _ => run_case_t(seed, nactors, steps, out, channel::unbounded),
+    }
+}
+
+fn run_case_t<T>(seed: u64, nactors: usize, steps: u64, out: O, mk: impl Fn() -> (T, T)) -> Result<(), String>
+where
+    T: aldrin::core::transport::AsyncTransport<Error = Disconnected> + Unpin + 'static,
+{
     let r: R = Rc::new(RefCell::new(Rng::new(seed)));
     let b: B = Rc::new(RefCell::new(Board::default()));
     let spawn: Rc<RefCell<Vec<(Grp, Task)>>> = Rc::new(RefCell::new(vec![]));
@@ -956,12 +1021,12 @@ fn run_case(seed: u64, nactors: usize, steps: u64, out: O) -> Result<(), String>
     let mut tasks: Vec<Option<(Grp, Task)>> = vec![Some((Grp::Broker, Box::pin(broker.run())))];
     for i in 0..=nactors {
         let (bb, rr, sp, mut h2, oo) = (b.clone(), r.clone(), spawn.clone(), bh.clone(), out.clone());
-        let (t1, t2) = channel::unbounded();
+        let (t1, t2) = mk();
         let grp = if i == nactors { Grp::Obs } else { Grp::Act };
         tasks.push(Some((
             grp,
             Box::pin(async move {
-                let mut cf: Pin<Box<dyn Future<Output = Result<Client<channel::Unbounded>, aldrin::error::ConnectError<Disconnected>>>>> =
+                let mut cf: Pin<Box<dyn Future<Output = Result<Client<T>, aldrin::error::ConnectError<Disconnected>>>>> =
                     Box::pin(Client::connect(t1));
                 let mut bf = Box::pin(h2.connect(t2));
                 let (mut cres, mut bres) = (None, None);
@@ -1051,6 +1116,8 @@ struct Totals {
     raw_events: u64,
     raw_destroys: u64,
     restarts: u64,
+    uncorr_worlds: u64,
+    bounded: u64,
     lifetimes: BTreeMap<String, u64>,
     finds: BTreeMap<String, u64>,
     waits: BTreeMap<String, u64>,
@@ -1129,6 +1196,8 @@ fn main() {
         raw_events: 0,
         raw_destroys: 0,
         restarts: 0,
+        uncorr_worlds: 0,
+        bounded: 0,
         lifetimes: BTreeMap::new(),
         finds: BTreeMap::new(),
         waits: BTreeMap::new(),
@@ -1166,6 +1235,8 @@ fn main() {
         t.raw_events += co.raw_events;
         t.raw_destroys += co.raw_destroys;
         t.restarts += co.restarts;
+        t.uncorr_worlds += co.uncorr_worlds;
+        t.bounded += co.bounded;
         for (k, v) in &co.lifetimes {
             *t.lifetimes.entry(k.clone()).or_default() += v;
         }
@@ -1188,7 +1259,7 @@ fn main() {
     write!(
         s,
         "{{\"seed\":{seed},\"cases\":{},\"lines\":{},\"entry_kinds\":{{\"any\":{},\"any_with_services\":{},\"specific_with_services\":{},\"specific\":{}}},\
-         \"expected_objects\":{},\"discoverer_events\":{},\"raw_bus_events\":{},\"raw_destroy_events\":{},\"restarts\":{},\
+         \"expected_objects\":{},\"discoverer_events\":{},\"raw_bus_events\":{},\"raw_destroy_events\":{},\"restarts\":{},\"worlds_without_discoverer_correspondence\":{},\"worlds_with_bounded_transport\":{},\
          \"lifetimes\":{},\"finds\":{},\"waits\":{},\"monitor_failures\":{},\"distinct_nontrivial\":{},\"samples\":[{}]}}",
         t.cases,
         t.lines,
@@ -1201,6 +1272,8 @@ fn main() {
         t.raw_events,
         t.raw_destroys,
         t.restarts,
+        t.uncorr_worlds,
+        t.bounded,
         jmap(&t.lifetimes),
         jmap(&t.finds),
         jmap(&t.waits),
